@@ -19,8 +19,8 @@ EXTENDS FftFamily, Q
 CONSTANTS NChans, PerSegs, Aligns, ExtraSegs,   \* ExtraSegs: n = p*segs + tail for <<segs, tail>> in ExtraSegs
           Variant    \* "code"; wrong variants TLC must reject: "noshift" (fftshift dropped), "parity" (freq_align by the
                      \* wrong parity), "norecentre" (truncating slice keeps center_freq / freq_align)
-VARIABLES cs, res, done
-vars == <<tab, cs, res, done>>
+VARIABLES cs, res, done, xs
+vars == <<tab, cs, res, done, xs>>
 
 A2(al) == CASE al = "bottom" -> 0 [] al = "center" -> 1 [] al = "top" -> 2
 NormAlign(al, n) == IF n % 2 = 1 THEN "center" ELSE al
@@ -74,10 +74,19 @@ Cases ==
                  c0 \in 0..(nc - 1), k \in Bins(p)} : nc \in NChans, al \in Aligns, p \in PerSegs, st \in ExtraSegs}
 
 NoRes == [st |-> <<>>, ist |-> <<>>]
-Init == TabInit /\ cs \in {c \in Cases : c.n >= c.p /\ c.n <= 64} /\ res = NoRes /\ done = FALSE
-Next == /\ ~done /\ done' = TRUE
-        /\ LET st == Stft(Sig(cs), cs.p) IN res' = [st |-> st, ist |-> Istft(st, cs.p)]
-        /\ UNCHANGED <<tab, cs>>
+\* Sample axes after the channel axis.  The transform acts on every trailing index independently (the signal of
+\* index e is the modelled one times a weight the replayer chooses), so a case is evaluated once and then expanded
+\* into one generated case per trailing sample shape xs (<<>>: none; the first entry 2 may be the polarisation axis)
+ExtraShapes == <<<<>>, <<2>>, <<3>>, <<2, 3>>, <<3, 3>>, <<2, 2>>, <<2, 3, 2>>>>
+HS(c) == c.nch + 2 * c.p + c.n + c.c0 + 3 * (c.k + c.p) + (IF c.mode = "data" THEN 1 ELSE 0)
+Extras(c) == {ExtraShapes[1]} \cup {ExtraShapes[((HS(c) + 3 * j) % 6) + 2] : j \in 0..1}
+NoXs == <<-1>>
+Init == TabInit /\ cs \in {c \in Cases : c.n >= c.p /\ c.n <= 64} /\ res = NoRes /\ done = FALSE /\ xs = NoXs
+Evaluate == /\ ~done /\ done' = TRUE
+            /\ LET st == Stft(Sig(cs), cs.p) IN res' = [st |-> st, ist |-> Istft(st, cs.p)]
+            /\ UNCHANGED <<tab, cs, xs>>
+Expand == done /\ xs = NoXs /\ xs' \in Extras(cs) /\ UNCHANGED <<tab, cs, res, done>>
+Next == Evaluate \/ Expand
 Spec == Init /\ [][Next]_vars
 
 (***************************************************************************)
